@@ -14,6 +14,13 @@
 (*       accepted (a debug-mode or foreign quoting enclave)                *)
 (*   Q2  a report whose ISVSVN is below every TCB level is never accepted  *)
 (*   Q3  verification never panics                                         *)
+(*   Q4  (events "tcb": the platform's SGX components, PCE SVN and TDX     *)
+(*       components varied around the TCB levels) a platform is accepted   *)
+(*       only if Intel's level selection - first level all of whose        *)
+(*       components it reaches; all sixteen TDX components for module      *)
+(*       version 0, components 2..15 plus the module identity from         *)
+(*       version 1 on - yields an acceptable status (`truth`, computed by  *)
+(*       the harness from the TCB info document)                           *)
 (* A rejected change of an unbound bit, or of the genuine report, is drift *)
 (* (reported by the check, not a violation of "accepted only as signed").  *)
 (***************************************************************************)
@@ -37,7 +44,12 @@ Verdict(e) ==
 TrBegin == l <= Len(Trace) /\ Ev.ev = "begin" /\ l' = l + 1 /\ UNCHANGED bad
 TrQE == /\ l <= Len(Trace) /\ Ev.ev = "qe" /\ l' = l + 1
         /\ bad' = IF bad = "none" THEN Verdict(Ev) ELSE bad
-TraceNext == TrBegin \/ TrQE
+TrTCB == /\ l <= Len(Trace) /\ Ev.ev = "tcb" /\ l' = l + 1
+         /\ bad' = IF bad # "none" THEN bad
+                   ELSE IF Ev.panic THEN "Q3: TCB bundle verification panicked"
+                   ELSE IF Ev.accepted /\ ~Ev.truth THEN "Q4: a platform below every acceptable TCB level was accepted"
+                   ELSE "none"
+TraceNext == TrBegin \/ TrQE \/ TrTCB
 TraceSpec == TraceInit /\ [][TraceNext]_tvars
 RuleHolds == bad = "none"
 TraceAccepted == TLCGet("stats").diameter - 1 = Len(Trace)
